@@ -33,11 +33,11 @@ pub use common::*;
 ///
 /// More on alignment guarantees: https://github.com/jemalloc/jemalloc/issues/1533
 /// We also provide an API with a custom [Direct-IO] allocator (see [io::disk::linux] for details), but Jemalloc has performed better in benchmarks.
-#[cfg(not(miri))]
+#[cfg(all(not(miri), not(feature = "verif_sysalloc")))]
 use jemallocator::Jemalloc;
 pub use types::*;
 
-#[cfg(not(miri))]
+#[cfg(all(not(miri), not(feature = "verif_sysalloc")))]
 #[global_allocator]
 static GLOBAL: Jemalloc = Jemalloc;
 
